@@ -13,24 +13,24 @@ Import RecordSetNotations.
 
 Theorem C20_reset_promotion_sound : forall cx s m s' d n', step cx s (ONodeReset m) = (s', OutTx COk d) ->
   nodes s' !! rs_creator m = Some n' -> n_role n' = 1 -> super_ok s' (rs_creator m) n'.
-Proof. exact reset_promotion_sound. Qed.
+Proof. first [exact reset_promotion_sound | apply reset_promotion_sound]. Qed.
 Print Assumptions C20_reset_promotion_sound.
 
 Theorem C20_add_vstorage_promotion_sound : forall cx s c sz s' d n n', step cx s (OAddVstorage c sz) = (s', OutTx COk d) ->
   nodes s !! c = Some n -> n_role n = 0 -> nodes s' !! c = Some n' -> n_role n' = 1 -> super_ok s' c n'.
-Proof. exact add_vstorage_promotion_sound. Qed.
+Proof. first [exact add_vstorage_promotion_sound | apply add_vstorage_promotion_sound]. Qed.
 Print Assumptions C20_add_vstorage_promotion_sound.
 
 Theorem C20_remove_vstorage_demotes_partial : forall cx s c sz s' d n' p', step cx s (ORemoveVstorage c sz) = (s', OutTx COk d) ->
   nodes s' !! c = Some n' -> pledges s' !! c = Some p' -> pl_total p' < np_vthreshold (nparams s') -> n_role n' <> 1.
-Proof. exact remove_vstorage_demotes_partial. Qed.
+Proof. first [exact remove_vstorage_demotes_partial | apply remove_vstorage_demotes_partial]. Qed.
 Print Assumptions C20_remove_vstorage_demotes_partial.
 
 Theorem C20_remove_vstorage_demotes_wf : forall cx s c sz s' d n' p',
   (forall n, nodes s !! c = Some n -> n_role n = 0 \/ n_role n = 1) ->
   step cx s (ORemoveVstorage c sz) = (s', OutTx COk d) ->
   nodes s' !! c = Some n' -> pledges s' !! c = Some p' -> pl_total p' < np_vthreshold (nparams s') -> n_role n' = 0.
-Proof. exact remove_vstorage_demotes_wf. Qed.
+Proof. first [exact remove_vstorage_demotes_wf | apply remove_vstorage_demotes_wf]. Qed.
 Print Assumptions C20_remove_vstorage_demotes_wf.
 
 Theorem C20_delegate_promotion_sound_partial : forall cx s del val key existed amount v' d' s' d addr n n',
@@ -41,7 +41,7 @@ Theorem C20_delegate_promotion_sound_partial : forall cx s del val key existed a
   (* added: Delegate does not lower the delegator's shares *)
   (forall old, del_shares s del val = Some old -> old <= dl_shares d') ->
   nodes s !! addr = Some n -> n_role n = 0 -> nodes s' !! addr = Some n' -> n_role n' = 1 -> super_ok s' addr n'.
-Proof. exact delegate_promotion_sound_partial. Qed.
+Proof. first [exact delegate_promotion_sound_partial | apply delegate_promotion_sound_partial]. Qed.
 Print Assumptions C20_delegate_promotion_sound_partial.
 
 Theorem C20_unbond_partial_promotion_sound : forall cx s del val key d' v' s' d v old new addr n n',
@@ -51,7 +51,7 @@ Theorem C20_unbond_partial_promotion_sound : forall cx s del val key d' v' s' d 
   v_shares v' = v_shares v - (old - new) ->
   (forall k x, dels s !! k = Some x -> dl_del x = del -> dl_val x = val -> k = key) ->
   nodes s !! addr = Some n -> n_role n = 0 -> nodes s' !! addr = Some n' -> n_role n' = 1 -> super_ok s' addr n'.
-Proof. exact unbond_partial_promotion_sound. Qed.
+Proof. first [exact unbond_partial_promotion_sound | apply unbond_partial_promotion_sound]. Qed.
 Print Assumptions C20_unbond_partial_promotion_sound.
 
 Theorem C20_delegate_supers_sound : forall cx s del val key existed amount v' d' s' d k x n',
@@ -61,13 +61,13 @@ Theorem C20_delegate_supers_sound : forall cx s del val key existed amount v' d'
   (forall old, del_shares s del val = Some old -> old <= dl_shares d') ->
   dels s' !! k = Some x -> dl_val x = val ->
   nodes s' !! dl_del x = Some n' -> n_val n' = val -> n_role n' = 1 -> super_ok s' (dl_del x) n'.
-Proof. exact delegate_supers_sound. Qed.
+Proof. first [exact delegate_supers_sound | apply delegate_supers_sound]. Qed.
 Print Assumptions C20_delegate_supers_sound.
 
 Theorem C20_promotion_with_residue_refuted : exists cx s evs s' d addr n n',
   step cx s (OStaking evs) = (s', OutTx COk d) /\ nodes s !! addr = Some n /\ n_role n = 0 /\
   nodes s' !! addr = Some n' /\ n_role n' = 1 /\ ~ super_ok s' addr n'.
-Proof. exact promotion_with_residue_refuted. Qed.
+Proof. first [exact promotion_with_residue_refuted | apply promotion_with_residue_refuted]. Qed.
 Print Assumptions C20_promotion_with_residue_refuted.
 
 Theorem C20_delegate_promotion_sound_refuted : exists cx s del val key existed amount v' d' s' d addr n n',
@@ -75,5 +75,5 @@ Theorem C20_delegate_promotion_sound_refuted : exists cx s del val key existed a
   (existed = true <-> is_Some (del_shares s del val)) /\ dl_del d' = del /\ dl_val d' = val /\
   (forall k x, dels s !! k = Some x -> dl_del x = del -> dl_val x = val -> k = key) /\
   nodes s !! addr = Some n /\ n_role n = 0 /\ nodes s' !! addr = Some n' /\ n_role n' = 1 /\ ~ super_ok s' addr n'.
-Proof. exact delegate_promotion_sound_refuted. Qed.
+Proof. first [exact delegate_promotion_sound_refuted | apply delegate_promotion_sound_refuted]. Qed.
 Print Assumptions C20_delegate_promotion_sound_refuted.
